@@ -88,6 +88,11 @@ def handle (s : St) (op : String) (args : List Sexp) : Option (St × String) := 
         let a ← adjOf c a; let t ← t.toInt?; let n ← n.toInt?
         if n = 0 && c.isHol (c.adjust a t) then pure (s, "err Other")   -- real code: endless loop
         else pure (s, resInt (c.addT s.tbl a t n))
+    | "clock", [t] =>     -- Calendar.clock(t) = dt2int.get(t, dt2int[adjust(t)]) (_drange.py:615-618): the table index of adjust(t)
+        let t ← t.toInt?
+        pure (s, match clockOfT s.tbl (c.adjust c.adj t) with
+                 | .ok i => okInt i
+                 | .error e => "err " ++ e.render)
     | "bdays", [a, x, y] =>
         let a ← adjOf c a; let x ← x.toInt?; let y ← y.toInt?
         pure (s, resInt (c.bdaysBetweenT s.tbl a x y))
